@@ -25,6 +25,10 @@ SHAPES = {
     "a2r": ("(uint64,string)uint64", [(9).to_bytes(8, "big"), b"\x00\x02hi"]),
 }
 BARE_KINDS = ["expr", "exprret", "sub", "abisub"]
+# actions given as a plain Expr that ends in an If/ElseIf guard ladder WITHOUT a final Else (no guard fires in the
+# generated calls unless stated): wrap_handler must append Approve() because the ladder can fall through
+LADDER_KINDS = ["ladder1", "ladder2", "ladder3", "ladder2p", "ladder2a", "ladder_only"]
+ACTION_KINDS = BARE_KINDS + LADDER_KINDS
 RETURN_PREFIX = bytes.fromhex("151f7c75")
 
 
@@ -101,6 +105,22 @@ def plain_handler(pt, kind, tag, name):
         return pt.Log(pt.Bytes(tag))
     if kind == "exprret":
         return pt.Seq(pt.Log(pt.Bytes(tag)), pt.Approve())
+    if kind in LADDER_KINDS:
+        fee = pt.Txn.fee()                     # 1000 in every generated call
+        g = lambda n: fee == pt.Int(n)
+        log = pt.Log(pt.Bytes(tag))
+        if kind == "ladder1":
+            return pt.Seq(log, pt.If(g(7)).Then(pt.Reject()))
+        if kind == "ladder2":
+            return pt.Seq(log, pt.If(g(7)).Then(pt.Reject()).ElseIf(g(8)).Then(pt.Reject()))
+        if kind == "ladder3":
+            return pt.Seq(log, pt.If(g(7)).Then(pt.Reject()).ElseIf(g(8)).Then(pt.Err()).ElseIf(g(9)).Then(pt.Approve()))
+        if kind == "ladder2p":                 # a plain statement in an arm
+            return pt.Seq(log, pt.If(g(7)).Then(pt.Reject()).ElseIf(g(8)).Then(pt.Pop(pt.Int(1))))
+        if kind == "ladder2a":                 # second guard fires and approves
+            return pt.Seq(log, pt.If(g(7)).Then(pt.Reject()).ElseIf(g(1000)).Then(pt.Approve()).ElseIf(g(9)).Then(pt.Err()))
+        if kind == "ladder_only":              # the ladder is the whole action; the tag is logged inside the guards' conditions' Seq
+            return pt.If(pt.Seq(log, g(7))).Then(pt.Reject()).ElseIf(g(8)).Then(pt.Reject())
 
     def body():
         return pt.Log(pt.Bytes(tag))
@@ -142,12 +162,21 @@ def real_bare(pt, bare):
     return pt.BareCallActions(**kw)
 
 
-def build_router(pt, cfg):
-    """Router from a configuration: bare actions, clear_state, methods (decorator or add_method_handler)."""
+def build_router(pt, cfg, only=None):
+    """Router from a configuration: bare actions, clear_state, methods (decorator or add_method_handler).
+    only: names of the methods to register now (the others can be added later with add_method)."""
     clear = None if cfg["clear"] is None else plain_handler(pt, cfg["clear"], "CS", "clear_action")
     bare = real_bare(pt, cfg["bare"]) if (cfg["bare"] or cfg.get("explicit_bare")) else None
     r = pt.Router("c08", bare, clear_state=clear)
     for m in cfg["methods"]:
+        if only is None or m["name"] in only:
+            add_method(pt, r, m)
+    return r
+
+
+def add_method(pt, r, m):
+    """register one method on an existing Router, in the flavour the configuration asks for"""
+    if True:
         fn = method_fn(pt, m)
         via = m.get("via", "decorator")
         if via == "decorator":
@@ -167,7 +196,6 @@ def build_router(pt, cfg):
             r.add_method_handler(pt.ABIReturnSubroutine(fn))
         else:
             r.add_method_handler(pt.ABIReturnSubroutine(fn), method_config=real_mc(pt, m["mc"]))
-    return r
 
 
 def optimize_of(pt, opt):
@@ -199,6 +227,10 @@ def directed_oc_cfgs():
         others = [o for o in OC5 if o != oc]
         out.append({"bare": {o: ["expr", "all"] for o in others}, "clear": "expr",
                     "methods": [{"name": "m0", "hid": 0, "shape": "a1", "mc": {o: "all" for o in others}, "via": "add"}]})
+    # guard ladders without Else as bare / clear-state actions (every kind, next to a method with a subroutine behind it)
+    for i, kind in enumerate(LADDER_KINDS):
+        out.append({"bare": {OC5[i % 5]: [kind, "all"], OC5[(i + 2) % 5]: [LADDER_KINDS[(i + 1) % 6], "call"]}, "clear": kind,
+                    "methods": [{"name": "m0", "hid": 0, "shape": "r0", "mc": {"no_op": "call"}, "via": "add"}]})
     # overriding names: registered as m0 / impl0 / m2 while the functions are called impl0 / impl1 / impl2
     out.append({"bare": {}, "clear": None, "methods": [
         {"name": "m0", "fname": "impl0", "hid": 0, "shape": "v0", "mc": {"no_op": "call"}, "via": "add_override"},
@@ -473,7 +505,7 @@ def gen_cfg(rng, nmeth=None, nbare=None):
     nbare = rng.choice([0, 0, 1, 2, 3, 5]) if nbare is None else nbare
     bare = {}
     for oc in rng.sample(OC5, min(nbare, 5)):
-        bare[oc] = [rng.choice(BARE_KINDS), rng.choice(CCS[1:])]
+        bare[oc] = [rng.choice(BARE_KINDS + BARE_KINDS + LADDER_KINDS), rng.choice(CCS[1:])]
     methods = []
     for k in range(nmeth):
         mc = gen_mc(rng)
@@ -494,7 +526,7 @@ def gen_cfg(rng, nmeth=None, nbare=None):
             m["via"] = "decorator_kw"
             m["kw"] = dict(mc, **{oc: "never" for oc in OC5 if oc not in mc and rng.random() < 0.6})
         methods.append(m)
-    return {"bare": bare, "clear": rng.choice([None, "expr", "exprret", "sub", "abisub"]), "methods": methods}
+    return {"bare": bare, "clear": rng.choice([None, None] + BARE_KINDS + LADDER_KINDS), "methods": methods}
 
 
 def small_cfgs():
